@@ -117,6 +117,8 @@ def run(prog, ctx):
         else:
             ctx.ok("C12.D3", R.key_of(f, "returns-value"), f.loc(), "%d return paths, all with a value" % len(withv))
     ctx.floor("C12.D3", n_over, 25, "overrides of getAnalyticSolutionIntegral")
+    check_dimension_index_spaces(prog, ctx, base)
+    check_vectorised_buffers(prog, ctx, base)
 
     # ---------------------------------------------------------------- D4
     tm = Terms(call.node)
@@ -488,3 +490,76 @@ def _param_deps(fi, derived):
         src_ = derived.get(a, {"@" + a})
         deps |= {d for d in src_ if not d.startswith("@const:")}
     return deps
+
+
+def check_dimension_index_spaces(prog, ctx, base):
+    """D10: an analytic integral that works on a SUBSET of the dimensions (a list `S = [d for d in range(self.dim) if ...]`) walks it
+    with a position i and an element d = S[i].  Sequences indexed by dimension (the box ends, constructor parameters stored on self)
+    take d; only sequences built per position of S (e.g. the 0/1 corner choice) take i."""
+    n = 0
+    for fi in prog.overrides(base, "getAnalyticSolutionIntegral"):
+        subsets = {}
+        for st in walk_local(fi.node):
+            if isinstance(st, ast.Assign) and len(st.targets) == 1 and isinstance(st.targets[0], ast.Name) and isinstance(st.value, ast.ListComp) \
+                    and len(st.value.generators) == 1 and st.value.generators[0].ifs \
+                    and isinstance(st.value.generators[0].iter, ast.Call) and isinstance(st.value.generators[0].iter.func, ast.Name) \
+                    and st.value.generators[0].iter.func.id == "range" and isinstance(st.value.elt, ast.Name) \
+                    and isinstance(st.value.generators[0].target, ast.Name) and st.value.elt.id == st.value.generators[0].target.id:
+                subsets[st.targets[0].id] = st
+        if not subsets:
+            continue
+        ctx.touch(fi)
+        dim_indexed_params = set(fi.params[1:])
+        for loop in [l for l in walk_local(fi.node) if isinstance(l, ast.For)]:
+            pos = None
+            it = loop.iter
+            # for i in range(len(S))   /   for i, d in enumerate(S)
+            if isinstance(it, ast.Call) and isinstance(it.func, ast.Name) and it.func.id == "range" and len(it.args) == 1 \
+                    and isinstance(it.args[0], ast.Call) and isinstance(it.args[0].func, ast.Name) and it.args[0].func.id == "len" \
+                    and it.args[0].args and isinstance(it.args[0].args[0], ast.Name) and it.args[0].args[0].id in subsets and isinstance(loop.target, ast.Name):
+                pos = loop.target.id
+            elif isinstance(it, ast.Call) and isinstance(it.func, ast.Name) and it.func.id == "enumerate" and it.args and isinstance(it.args[0], ast.Name) \
+                    and it.args[0].id in subsets and isinstance(loop.target, ast.Tuple) and isinstance(loop.target.elts[0], ast.Name):
+                pos = loop.target.elts[0].id
+            if pos is None:
+                continue
+            n += 1
+            bad = []
+            for x in ast.walk(loop):
+                if isinstance(x, ast.Subscript) and isinstance(x.slice, ast.Name) and x.slice.id == pos:
+                    b_ = x.value
+                    if (isinstance(b_, ast.Name) and b_.id in dim_indexed_params) or R.self_attr(b_, fi.self_name) is not None:
+                        bad.append(x)
+            ctx.check(not bad, "C12.D10", R.key_of(fi, "subset-position-vs-dimension#%d" % n), fi.loc(bad[0]) if bad else fi.loc(loop),
+                      "inside the walk over the dimension subset, per-dimension sequences are indexed by the dimension, not by the position",
+                      "`%s` indexes a per-dimension sequence with `%s`, the POSITION in the filtered dimension list, instead of the dimension "
+                      "stored at that position: wrong as soon as a filtered-out dimension precedes it" % (src(bad[0]) if bad else "", pos))
+    ctx.note("C12.D10", "Function::dimension-subsets", "sparseSpACE/Function.py", "%d walks over filtered dimension lists analysed" % n)
+
+
+def check_vectorised_buffers(prog, ctx, base):
+    """D9: the result buffer of a vectorised evaluation never inherits the dtype of the coordinates (an all-integer batch would truncate
+    the values that the scalar implementation returns as floats)."""
+    n = 0
+    for fi in prog.overrides(base, "eval_vectorized"):
+        cp = fi.params[1] if len(fi.params) > 1 else None
+        for x in R.calls_in(fi.node):
+            f_ = x.func
+            if isinstance(f_, ast.Attribute) and f_.attr in ("zeros_like", "ones_like", "empty_like", "full_like") and x.args:
+                n += 1
+                ctx.touch(fi)
+                from_coords = any(isinstance(y, ast.Name) and y.id == cp for y in ast.walk(x.args[0]))
+                kw = {k.arg: k.value for k in x.keywords}
+                floaty = "dtype" in kw and not (isinstance(kw["dtype"], ast.Name) and kw["dtype"].id == "int")
+                ctx.check(not from_coords or floaty, "C12.D9", R.key_of(fi, "buffer-dtype:%s" % src(x)[:40]), fi.loc(x),
+                          "the result buffer has its own (float) dtype",
+                          "`%s` allocates the result buffer with the dtype of the coordinates: for a batch of integer points the values are "
+                          "truncated, while the scalar implementation returns floats" % src(x))
+            if isinstance(f_, ast.Attribute) and f_.attr in ("zeros", "ones", "empty", "full"):
+                kw = {k.arg: k.value for k in x.keywords}
+                if "dtype" in kw and isinstance(kw["dtype"], ast.Name) and kw["dtype"].id in ("int", "bool"):
+                    n += 1
+                    ctx.touch(fi)
+                    ctx.violation("C12.D9", R.key_of(fi, "buffer-dtype:%s" % src(x)[:40]), fi.loc(x),
+                                  "`%s` allocates an integer result buffer in a vectorised evaluation" % src(x))
+    ctx.note("C12.D9", "Function::vectorised-buffers", "sparseSpACE/Function.py", "%d dtype-inheriting / typed buffer allocations analysed" % n)
